@@ -110,6 +110,12 @@ class Dump:
         return x in gaps
 
 
+def expand_mask(kv, need):
+    pat = kv["mask"] if kv["mask"] != "-" else ""
+    if kv.get("cyc") == "1":
+        return [bool(pat) and pat[i % len(pat)] == "1" for i in range(need)]
+    return [c == "1" for c in pat]
+
 def filt(mask, s):
     return None if s is None else bytes(c for c, m in zip(s, mask) if m)
 
@@ -120,7 +126,7 @@ class C15(Prop):
     lean_exe = "c15_driver"
     harness = "h_msaops.c"
     theorems = ["EaselModel.Props.C15." + t for t in (
-        "compact_is_filter", "columnSubset_is_filter", "columnCompact_is_filter", "columnSubset_nucleic_partial",
+        "compact_is_filter", "columnSubset_is_filter", "columnCompact_is_filter", "columnSubset_nucleic",
         "columnSubset_wellformed", "columnSubset_dealign",
         "minimGaps_text_removes_exactly", "minimGaps_digital_removes_exactly", "minimGaps_text_is_filter",
         "minimGaps_digital_is_filter", "noGaps_text_keeps_exactly", "noGaps_text_is_filter",
@@ -129,7 +135,8 @@ class C15(Prop):
         "digital_text_digital", "generated_tables_consistent", "text_digital_text",
         "canonical_symbol_amino", "canonical_symbol_rna", "canonical_symbol_dna",
         "reverseComplement_twice", "generated_complement_involutive",
-        "wuss2ct_involution", "wuss2ct_pairs_matched", "wussReverse_involutive")]
+        "wuss2ct_involution", "wuss2ct_pairs_matched", "removeBroken_keeps_exactly", "removeBroken_rejects_unbalanced",
+        "ct2wuss_shape", "wussReverse_involutive")]
     claimed = True
     technique = ("Lean 4 proof about an executable hand model of esl_msa.c / esl_wuss.c (in-place compaction loop = filter-by-mask on every aligned field, "
                  "well-formedness invariants, mode-conversion and reverse-complement identities over alphabet tables regenerated from the tree, pair-table invariants) "
@@ -289,32 +296,36 @@ class C15(Prop):
         digital = False
         if mode != "text":
             ops += ["digitize abc=" + mode, "dump", "validate"]; digital = True
-        cur_alen, cur_nseq = alen, nseq           # tracked only for mask lengths; -1 = unknown
-        for _ in range(rng.randrange(1, 5)):
-            if cur_alen < 0: break
+        def cmask(n_hint):
+            m = self.rand_mask(rng, rng.choice([n_hint, n_hint, 1, 2, 3, 7, 13]) or 1)
+            return (m or "1") + " cyc=1"
+        for _ in range(rng.randrange(1, 6)):
             r = rng.random()
             gaps = rng.choice(["-_.~", "-.", "-", "-_.~*"])
             if r < 0.2:
-                m = self.rand_mask(rng, cur_alen); ops += ["colsubset mask=" + (m or "-"), "dump", "validate"]; cur_alen = m.count("1")
+                ops += ["colsubset mask=" + cmask(alen), "dump", "validate"]
             elif r < 0.32:
-                ops += ["minimgaps gaps=%s rf=%d" % (hx(gaps), rng.randrange(2)), "dump", "validate"]; cur_alen = -1
+                ops += ["minimgaps gaps=%s rf=%d" % (hx(gaps), rng.randrange(2)), "dump", "validate"]
             elif r < 0.4:
-                ops += ["nogaps gaps=%s" % hx(gaps), "dump", "validate"]; cur_alen = -1
+                ops += ["nogaps gaps=%s" % hx(gaps), "dump", "validate"]
             elif r < 0.48 and not digital:
-                ops += ["minimgapstext gaps=%s rf=%d fix=%d" % (hx(gaps), rng.randrange(2), rng.randrange(2)), "dump", "validate"]; cur_alen = -1
+                ops += ["minimgapstext gaps=%s rf=%d fix=%d" % (hx(gaps), rng.randrange(2), rng.randrange(2)), "dump", "validate"]
             elif r < 0.53 and not digital:
-                ops += ["nogapstext gaps=%s fix=%d" % (hx(gaps), rng.randrange(2)), "dump", "validate"]; cur_alen = -1
+                ops += ["nogapstext gaps=%s fix=%d" % (hx(gaps), rng.randrange(2)), "dump", "validate"]
             elif r < 0.68:
-                m = self.rand_mask(rng, cur_nseq)
-                ops += ["seqsubset mask=" + m, "dump w=b", "validate w=b", "dump"]
-                if "1" in m and rng.random() < 0.5: ops += ["swap"]; cur_nseq = m.count("1")
+                cm = cmask(nseq)
+                if "1" not in cm.split()[0] and rng.random() < 0.9: cm = "1" + cm
+                ops += ["seqsubset mask=" + cm, "dump w=b", "validate w=b", "dump"]
+                if rng.random() < 0.5: ops += ["swap", "dump"]
             elif r < 0.76:
                 ops += [rng.choice(["clone", "copy"]), "dump w=b", "validate w=b"]
                 # mutate A afterwards: B must not follow
-                m = self.rand_mask(rng, cur_alen); ops += ["colsubset mask=" + (m or "-"), "dump", "dump w=b"]; cur_alen = m.count("1")
+                ops += ["colsubset mask=" + cmask(alen), "dump", "dump w=b"]
             elif r < 0.82:
                 if digital: ops += ["textize", "dump", "validate", "digitize abc=" + mode, "dump"]
-                else: ops += ["digitize abc=" + rng.choice(["rna", "dna", "amino"]), "dump", "validate"]; break
+                else:
+                    ops += ["digitize abc=" + (mode if mode != "text" and rng.random() < 0.8 else rng.choice(["rna", "dna", "amino"])), "dump", "validate"]
+                    if mode == "text": break
             elif r < 0.88:
                 if mode in ("rna", "dna") and digital or rng.random() < 0.15: ops += ["revcomp", "dump", "validate", "revcomp", "dump"]
             elif r < 0.93:
@@ -403,6 +414,7 @@ class C15(Prop):
             elif name == "validate":
                 if l not in ("ok", "nomsa"): return Failure("monitor", "esl_msa_Validate fails after %r: %s" % (pending[0] if pending else "construction", l))
             elif name == "swap":
+                if l != "ok": continue
                 A, B = B, A; pending = None
                 if A is not None and not hasattr(A, "line"): A.line = None
             elif name in ("new", "sq", "col", "cut", "comment", "gf", "gs", "gc", "gr"):
@@ -471,7 +483,7 @@ class C15(Prop):
             if before is not None and (B.sq != before.sq or B.gr != before.gr or B.gs != before.gs or B.gc != before.gc or B.gf != before.gf or B.comment != before.comment):
                 return Failure("monitor", "%s: the copy differs from the original" % w[0])
         elif w[0] == "seqsubset" and before is not None:
-            mask = [c == "1" for c in kv["mask"]]
+            mask = expand_mask(kv, before.nseq)
             keep = [i for i, m in enumerate(mask) if m]
             if B.nseq != len(keep) or B.alen != before.alen: return Failure("monitor", "seqsubset: wrong dimensions")
             for ni, oi in enumerate(keep):
@@ -506,7 +518,7 @@ class C15(Prop):
         if not ok:
             return None
         if name == "colsubset":
-            mask = [c == "1" for c in (kv["mask"] if kv["mask"] != "-" else "")]
+            mask = expand_mask(kv, before.alen)
             return self.check_cols(before, after, mask, "colsubset mask=" + kv["mask"], None)
         if name in ("minimgaps", "minimgapstext", "nogaps", "nogapstext"):
             gaps = unhx(kv["gaps"]) or b""
